@@ -14,10 +14,11 @@ from harness import nsutil
 
 # ----------------------------------------------------------------------------- analytic stand-in flow
 class FakeFlow:
-    """Independent normal proposal with closed-form density; taggable and savable."""
-    xp = None
+    """Independent normal proposal with closed-form density; taggable and savable.
+    Registered as the external flow backend "fake" (stubs/verif_fakeflow-0.0.dist-info)."""
+    import array_api_compat.numpy as xp
 
-    def __init__(self, dims, mu=0.0, sigma=2.0, seed=0, tag="A", out_xp=None):
+    def __init__(self, dims, mu=0.0, sigma=2.0, seed=0, tag="A", out_xp=None, device=None, data_transform=None, dtype=None, **kw):
         self.dims = dims
         self.mu = np.full(dims, float(mu)) if np.ndim(mu) == 0 else np.asarray(mu, float)
         self.sigma = np.full(dims, float(sigma)) if np.ndim(sigma) == 0 else np.asarray(sigma, float)
